@@ -276,7 +276,7 @@ func cmdCheck(args []string) int {
 			if alsoOnly {
 				keep := false
 				for _, l := range c.Also[*prop] {
-					if strings.HasSuffix(o.Name, "/"+l) || strings.Contains(o.Name, "/"+l+"@") {
+					if strings.HasSuffix(o.Name, "/"+l) || strings.Contains(o.Name, "/"+l+"@") || strings.Contains(o.Name, "/"+l+"#") {
 						keep = true
 					}
 				}
